@@ -162,6 +162,7 @@ struct VioAgg {
 
 pub struct Ctx {
     pub opts: Opts,
+    uniform_mode: bool,
     next_leaf: u64,
     cur_leaf: u64,
     pub executed: u64,
@@ -199,8 +200,10 @@ impl Ctx {
             assert!(fd >= 0, "cannot open crash file");
             crash::install(fd, opts.hang_secs);
         }
+        let uniform_mode = opts.extra("uniform").is_some();
         Ctx {
             opts,
+            uniform_mode,
             next_leaf: 0,
             cur_leaf: 0,
             executed: 0,
@@ -226,8 +229,10 @@ impl Ctx {
     }
     /// A context without crash-file / hook side effects, for nested use.
     pub fn new_secondary(opts: Opts) -> Ctx {
+        let uniform_mode = opts.extra("uniform").is_some();
         let mut c = Ctx {
             opts,
+            uniform_mode,
             next_leaf: 0,
             cur_leaf: 0,
             executed: 0,
@@ -398,11 +403,26 @@ impl Ctx {
         if !self.shadow {
             self.transitions += 1;
         }
+        // the outcome class of every call is part of the transcript (fills A/B, determinism, C08) - except, in
+        // cross-configuration runs, for the calls C08's scope leaves out (DESIGN 6): Debug formatting and the derived
+        // arithmetic accessors, whose overflow behaviour is Rust's ordinary profile-dependent one
+        let record = !(self.uniform_mode && (name.starts_with("Debug") || matches!(name, "module_size" | "area.end_address" | "section.end_address")));
         match catch_unwind(AssertUnwindSafe(f)) {
-            Ok(v) => Out::Val(v),
+            Ok(v) => {
+                if record {
+                    self.tx.str(name);
+                    self.tx.u64(0);
+                }
+                Out::Val(v)
+            }
             Err(_) => {
+                if record {
+                    self.tx.str(name);
+                    self.tx.u64(1);
+                }
                 if self.opts.verbose {
                     LAST_PANIC.with(|p| println!("  panic in {}: {}", name, p.borrow()));
+                    println!("  {} = panicked", name);
                 }
                 Out::Panic
             }
